@@ -4,7 +4,8 @@ from __future__ import annotations
 from hypothesis import strategies as st
 
 from hxv.gen import streams as gs
-from hxv.lib import Result, Violation, mk_candles, raises, snap, split_chunks, tf_seconds
+from hxv.lib import mk_candles as _mk
+from hxv.lib import TZOFFS, utc_offsets, Result, Violation, mk_candles, raises, snap, split_chunks, tf_seconds
 from hxv.ref import resample as rr
 from hxv.runner import Shard
 
@@ -60,6 +61,8 @@ def cases(draw, max_n=40, mode=None):
         # hexital mode: other member timeframes registered in the same call (each must collapse on its own)
         "siblings": draw(st.lists(gs.timeframe(), max_size=2)),
         "late": draw(st.booleans()),
+        # timezone-aware timestamps: the buckets are those of the timestamps' own wall clock, labels keep the offset
+        "tzoff": draw(st.sampled_from(TZOFFS)),
     }
 
 
@@ -73,6 +76,8 @@ def drive(case):
     pre = min(case.get("preload", 0), len(rows))
     rest = rows[pre:]
     mode = case.get("mode", "manager")
+    tz = case.get("tzoff")
+    mk_candles = lambda rr_: _mk(rr_, tz)  # noqa: E731
     if mode == "manager":
         obj = CandleManager(mk_candles(rows[:pre]), timeframe=tf)
         get = lambda: obj.candles  # noqa: E731
@@ -99,7 +104,9 @@ def drive(case):
         collapse()
     if mode == "hexital":
         got = get()
+        drive.offsets = utc_offsets([c for t in [tf] + sib for c in obj.candles(t.upper())])
         return got[0], calls, dict(zip(sib, got[1:]))
+    drive.offsets = utc_offsets(get())
     return snap(get(), readings=False), calls, {}
 
 
@@ -114,6 +121,11 @@ def run_case(case) -> Result:
         return Result([raises(exc)], False, labels)
     if others:
         labels.append("hexital_sibling_timeframes")
+    tz_lost = None
+    if case.get("tzoff") is not None and rows:
+        labels.append("tz_aware_timestamps")
+        if drive.offsets - {case["tzoff"]}:
+            tz_lost = Violation("label-lost-its-utc-offset", case["mode"], f"timestamps given with UTC offset {case['tzoff']} min, collapsed candles carry {sorted(map(str, drive.offsets))}")
 
     # an append boundary that splits a bucket
     pre = min(case.get("preload", 0), len(rows))
@@ -123,7 +135,7 @@ def run_case(case) -> Result:
         labels.append("boundary_inside_bucket")
     nontrivial = len(want) >= 2 and max(sizes, default=0) >= 2 and (calls >= 2 or case.get("extra", 0) >= 1)
 
-    viol = []
+    viol = [tz_lost] if tz_lost else []
     if sum(r[5] for r in got) != sum(r[5] for r in rows):
         viol.append(Violation("volume-not-conserved", case["mode"], f"{sum(r[5] for r in got)} vs {sum(r[5] for r in rows)}"))
     if any(b[0] is None or a[0] is None or b[0] <= a[0] for a, b in zip(got, got[1:])):
